@@ -189,6 +189,19 @@ def main(argv=None):
         with ctx.Pool(min(jobs, len(work)), initializer=_init_worker) as pool:
             for col in pool.imap_unordered(_run_one, work, chunksize=1):
                 total.merge(col)
+    # Epilogue: a deterministic handful of work items once more, one after the other in THIS process (the pool
+    # decides by itself which items share a worker, so state that the code under test keeps between calls - a
+    # module-level cache, a mutated default - would otherwise be exercised in an irreproducible way).  The same
+    # oracles apply; on code without such state the pass repeats earlier executions and changes nothing.
+    if len(work) > 1 and not args.max_items and getattr(mod, "EPILOGUE", True):
+        n_ep = min(len(items), int(getattr(mod, "EPILOGUE_ITEMS", 4)))
+        idx = sorted({int(i * len(items) / n_ep) for i in range(n_ep)}, reverse=True)
+        for i in idx:
+            ep = _run_one((i, items[i]))
+            ep.counters = {}
+            ep.samples = []
+            total.merge(ep)
+        total.count("epilogue_items_rerun_in_one_process", len(idx))
     # optional whole-run post-processing (e.g. cross-item differential oracles)
     if hasattr(mod, "finish"):
         mod.finish(total, tier)
